@@ -322,6 +322,35 @@ func ComputeStateKeyWithWord(nfaStates []nfa.StateID, isFromWord bool) StateKey 
 	return ComputeStateKeyWithWordAndMatch(nfaStates, isFromWord, false)
 }
 
+// computeOrderedStateKey is the cache key used by determinize. Unlike
+// ComputeStateKeyWithWordAndMatch it hashes the NFA states in the order given:
+// that order is the priority order of the threads, and leftmost-first
+// determinisation cuts off everything behind the first match state. Two sets
+// with the same members in a different order ({loop, match} after "p" vs
+// {match, restart} after "7" for p*[p7]) have different successors, so they
+// must not share a cache entry - otherwise the answer depends on which of them
+// an earlier search happened to build first.
+func computeOrderedStateKey(nfaStates []nfa.StateID, isFromWord bool, isMatch bool) StateKey {
+	h := fnv.New64a()
+	var flags byte = 4 // distinguishes ordered keys from the order-independent ones
+	if isFromWord {
+		flags |= 1
+	}
+	if isMatch {
+		flags |= 2
+	}
+	_, _ = h.Write([]byte{flags})
+	for _, sid := range nfaStates {
+		_, _ = h.Write([]byte{
+			byte(sid),
+			byte(sid >> 8),
+			byte(sid >> 16),
+			byte(sid >> 24),
+		})
+	}
+	return StateKey(h.Sum64())
+}
+
 // ComputeStateKeyWithWordAndMatch computes a hash-based key including word context
 // and match delay flag. With 1-byte match delay, the same set of NFA states can
 // produce both a match and non-match DFA state depending on whether the SOURCE
